@@ -4,6 +4,7 @@ import (
 	"encoding/json"
 	"fmt"
 	"sort"
+	"strconv"
 	"strings"
 	"testing"
 	"time"
@@ -350,6 +351,22 @@ var shapes = []shape{
 	{"multibyte-identifiers", func(n int) []byte { return []byte(rep("\u4e2d\u6587+", n) + "a") }},
 }
 
+// lexeme-run shapes: a long run of one lexeme of the alphabet (operators without
+// operands, keywords, literals, hostile lexemes), at top level and inside call
+// arguments, an array, parentheses and a member chain.
+func init() {
+	ctxs := []struct{ name, open, close string }{{"top", "", ""}, {"call", "f(", ")"}, {"array", "[", "]"}, {"paren", "(", ")"}, {"args2", "f(a, ", ", b)"}, {"cond", "a ? ", " : b"}}
+	for li, lx := range c01Alphabet {
+		lx := lx
+		for _, cx := range ctxs {
+			cx := cx
+			shapes = append(shapes, shape{fmt.Sprintf("run-%s-of-lexeme-%d-%s", cx.name, li, strconv.QuoteToASCII(lx)), func(n int) []byte {
+				return []byte(cx.open + rep(lx+" ", n) + cx.close)
+			}})
+		}
+	}
+}
+
 func timeParse(text []byte, reps int) time.Duration {
 	best := time.Duration(1 << 62)
 	for i := 0; i < reps; i++ {
@@ -378,8 +395,16 @@ func checkShape(c shapeCase) string {
 		if len(text) > 64<<10 {
 			text = text[:64<<10]
 		}
+		t0 := time.Now()
 		if msg, _ := checkTotal(text, 30*time.Second); msg != "" {
 			return fmt.Sprintf("shape %s at %d bytes: %s", c.Name, len(text), msg)
+		}
+		if d := time.Since(t0); d > 5*time.Second && n < 64<<10 {
+			// already seconds at a fraction of the size: confirm on the spot instead of waiting for 64 KiB
+			small := timeParse(sh.make(n/4), 3)
+			if again := timeParse(text, 2); again > 5*time.Second && float64(again) > 8*float64(small) {
+				return fmt.Sprintf("shape %s: parse time not proportional to length: %d bytes %v, %d bytes %v (ratio %.1f; linear=4, quadratic=16)", c.Name, n/4, small, n, again, float64(again)/float64(small))
+			}
 		}
 	}
 	t16 := timeParse(sh.make(16<<10), 5)
@@ -397,12 +422,12 @@ func checkShape(c shapeCase) string {
 
 // TestC01Shapes: pathological shapes at 8/16/32/64 KiB.
 func TestC01Shapes(t *testing.T) {
-	run := h.Begin("C01", "shapes", fmt.Sprintf("%d pathological shapes (deep nesting, long operator/member/call/conditional/assignment/comma chains, long identifiers/digit runs/strings, unterminated literals, runs of quotes/dots/junk bytes/backslashes, error recovery inside lists) at 8, 16, 32 and 64 KiB; oracle: outcome contract under a 30 s watchdog, and time roughly proportional to length: violation only if min-of-5 t(64K) > 250 ms and t(64K)/t(16K) > 8; every shape is non-trivial", len(shapes)))
+	run := h.Begin("C01", "shapes", fmt.Sprintf("%d pathological shapes (deep nesting, long operator/member/call/conditional/assignment/comma chains, long identifiers/digit runs/strings, unterminated literals, runs of quotes/dots/junk bytes/backslashes, error recovery inside lists; and a run of each of the %d lexemes of the alphabet at top level, inside call arguments, an array, parentheses, after other arguments and as a conditional branch) at 8, 16, 32 and 64 KiB; oracle: outcome contract under a 30 s watchdog, and time roughly proportional to length: violation only if min-of-5 t(64K) > 250 ms and t(64K)/t(16K) > 8; every shape is non-trivial", len(shapes), len(c01Alphabet)))
 	defer run.End(t)
 	var timings []string
 	for i, sh := range shapes {
-		if !h.Mine(int64(i)) {
-			continue
+		if !h.Mine(int64(i)) || run.NViolations() >= 1 {
+			continue // one slow shape is enough: each further one would cost minutes
 		}
 		c := shapeCase{Name: sh.name}
 		run.Count(true, "")
